@@ -134,6 +134,9 @@ func fmtCalls(cs []loaderCall) string {
 
 // applyBulkResult applies a finished bulk call to the model.
 func (r *Runner) applyBulkResult(lc loaderCall, isRefresh bool, log []HookCall) error {
+	if Debug {
+		fmt.Printf("  bulk %s keys=%v olds=%v res=%v err=%v pendingAtomic=%v\n", lc.Kind, lc.Keys, lc.Olds, lc.Res, lc.Err, r.Env.EvAtomic)
+	}
 	if lc.Err != nil {
 		if err := r.preReconcile(lc.Keys); err != nil {
 			return err
